@@ -130,6 +130,8 @@ NEEDS = {
  "R5-C06-a": ("periodic_disk_revolve.py: `wd + rd / uf`", "uf != 1 with the wrong ratio across a binomial threshold: Periodic(20,1,uf=2,wd=2,rd=2) [C19]"),
  "R5-C06-b": ("disk_revolve.py: split found by exact float equality after re-associating the sum", "decimal costs that are inexact in binary: DiskRevolve(12,1,wd=0.1,rd=0.2) raises at construction [C17]"),
  "R5-C07-a": ("basic_schedules.py SingleDisk: is_exhausted computed from r", "move_data=True: True one action early [C09]"),
+ "R5-C08-a": ("hrevolve.py: uses_storage_type(DISK) scans the operation list, which _iterator clears before the final EndReverse", "an observer read AFTER exhaustion: DiskRevolve(12,1) reports DISK unused [C11]"),
+ "R5-C08-b": ("hrevolve_sequences/hrevolve.py hrevolve_recurse l==1 leaf writes to level K", "one RAM unit, cheap disk, particular n: HRevolve(7,1,1,wd=1,rd=1) holds 2 DISK checkpoints with budget 1 [C03]"),
  "R5-C07-b": ("schedule.py finalize: n < 1 check moved inside the max_n-unknown branch", "finalize(0) on a finalised/offline schedule raises RuntimeError instead of ValueError [C10]"),
 
 }
